@@ -621,42 +621,35 @@ func verifNewConv(rnd *verifutil.Rand, target string, srcs []*verifSrc, spare bo
 		}
 	case "zstdchunked":
 		lv := []zstd.EncoderLevel{zstd.SpeedFastest, zstd.SpeedDefault}[rnd.Intn(2)]
-		if spare {
+		// all variants; since 27b6c79 each of them may convert layers in parallel
+		switch rnd.Intn(4) {
+		case 0:
 			c.variant = "LayerConvertFuncWithCompressionLevel"
 			c.fn = zstdconvert.LayerConvertFuncWithCompressionLevel(lv, shape(common)...)
-		} else if len(srcs) == 1 && rnd.Bool() {
-			// the variants that keep ONE option variable for all calls: only where the instance
-			// converts one layer at a time (table rows, retries); concurrently see verifFindings
-			switch rnd.Intn(3) {
-			case 0:
-				c.variant = "LayerConvertFuncWithCompressionLevel"
-				c.fn = zstdconvert.LayerConvertFuncWithCompressionLevel(lv, shape(common)...)
-			case 1:
-				c.variant = "LayerConvertFunc"
-				c.fn = zstdconvert.LayerConvertFunc(shape(common)...)
-			default:
-				c.variant = "LayerConvertWithLayerOptsFunc"
-				perLayer[srcs[0].desc.Digest] = shape(common)
-				layerMin[srcs[0].desc.Digest] = commonMin
-				c.minChunk = func(d digest.Digest) int { return layerMin[d] }
-				c.fn = zstdconvert.LayerConvertWithLayerOptsFunc(perLayer)
-			}
-		} else {
-			// the per-layer variant makes a fresh closure per call; layers without an entry get none
-			c.variant = "LayerConvertWithLayerOptsFuncWithCompressionLevel"
+		case 1:
+			c.variant = "LayerConvertFunc"
+			c.fn = zstdconvert.LayerConvertFunc(shape(common)...)
+		default:
+			// the per-layer variants take no common options; layers without an entry get none
 			for _, s := range srcs {
 				if _, ok := perLayer[s.desc.Digest]; !ok && rnd.Bool() {
 					perLayer[s.desc.Digest] = shape(common)
 					layerMin[s.desc.Digest] = commonMin
 				}
 			}
-			c.minChunk = func(d digest.Digest) int { return layerMin[d] } // no common options in this variant
-			c.fn = zstdconvert.LayerConvertWithLayerOptsFuncWithCompressionLevel(lv, perLayer)
+			c.minChunk = func(d digest.Digest) int { return layerMin[d] }
 			cd += fmt.Sprintf(" perlayer=%d", len(perLayer))
+			if rnd.Bool() {
+				c.variant = "LayerConvertWithLayerOptsFuncWithCompressionLevel"
+				c.fn = zstdconvert.LayerConvertWithLayerOptsFuncWithCompressionLevel(lv, perLayer)
+			} else {
+				c.variant = "LayerConvertWithLayerOptsFunc"
+				c.fn = zstdconvert.LayerConvertWithLayerOptsFunc(perLayer)
+			}
 		}
 	case "exttoc":
 		lv := 1 + rnd.Intn(9)
-		if rnd.Bool() || spare {
+		if rnd.Bool() {
 			c.variant = "LayerConvertFunc"
 			c.fn, c.finalize = LayerConvertFunc(shape(common), lv)
 		} else {
@@ -1265,7 +1258,7 @@ func verifConcurrent(t *testing.T, out *verifutil.Out, rnd *verifutil.Rand, targ
 				kind = "exttoc" // a TOC entry in the stream is refused by the lossless writer (documented)
 			}
 			if kind == "zstdchunked" && target != "zstdchunked" {
-				kind = "esgz" // zstd-typed input to a gzip converter: class verifSigZstdKept, see verifFindings
+				kind = "esgz" // zstd-typed input to a gzip converter: class verifSigZstdKept, see verifKnown
 			}
 			s := verifNewConvertedSrc(t, cs, rnd, kind, salt, rnd.Bool() && kind != "zstdchunked")
 			if s.nolabel {
@@ -1580,9 +1573,9 @@ func TestVerifC19Child(t *testing.T) {
 		srcs = append(srcs, verifNewSrc(t, cs, rnd, mt, comp, fmt.Sprintf("s%d", i)))
 	}
 	var c *verifConv
-	for { // the variants that capture the caller's slice
+	for { // the variants that capture the caller's slice, given at least one option
 		c = verifNewConv(rnd, target, srcs, true)
-		if c.variant == "LayerConvertFunc" || c.variant == "LayerConvertFuncWithCompressionLevel" {
+		if (c.variant == "LayerConvertFunc" || c.variant == "LayerConvertFuncWithCompressionLevel") && c.optDesc != "" {
 			break
 		}
 	}
@@ -1663,32 +1656,11 @@ func verifRunChild(out *verifutil.Out, scenario, sig string, round int) bool {
 	return false
 }
 
-// verifFindings replays the classes with their own signature that the table does not reach.
-func verifFindings(t *testing.T, out *verifutil.Out, rnd *verifutil.Rand, rounds int) {
-	out.Comment("candidate-finding classes (each with its own signature)")
-	// F1b/F5: already-converted input re-converted
-	cs := verifNewStore(t)
-	{ // zstd:chunked layer -> eStargz: gzip blob, zstd media type AND zstd:chunked annotations stay
-		s := verifNewConvertedSrc(t, cs, rnd, "zstdchunked", "fz", false)
-		c := &verifConv{target: "esgz", variant: "LayerConvertFunc", fn: estargzconvert.LayerConvertFunc()}
-		r := verifConvertOne(context.Background(), c, cs, s.desc)
-		verifCheckBatch(out, rnd, cs, c, []*verifSrc{s}, []verifResult{r}, "finding:zstdchunked->esgz")
-	}
-	{ // eStargz layer without uncompressed label, re-converted with the same options: same blob, no label
-		var s *verifSrc
-		for i := 0; i < 20; i++ {
-			s = verifNewConvertedSrc(t, cs, rnd, "esgz", fmt.Sprintf("fl%d", i), false)
-			if s.nolabel {
-				break
-			}
-		}
-		if s.nolabel {
-			c := &verifConv{target: "esgz", variant: "LayerConvertFunc", fn: estargzconvert.LayerConvertFunc()}
-			r := verifConvertOne(context.Background(), c, cs, s.desc)
-			verifCheckBatch(out, rnd, cs, c, []*verifSrc{s}, []verifResult{r}, "finding:esgz->esgz(no label)")
-		}
-	}
-	// F3/F3b/F4: concurrent conversions sharing the option slice
+// verifSharedOpts: 8 layers converted concurrently by one converter instance that was given an option
+// slice with spare capacity (repaired by 27b6c79; a failure here is a violation again).  Child
+// processes, because the failure mode includes fatal runtime errors.
+func verifSharedOpts(out *verifutil.Out, rounds int) {
+	out.Comment("shared option slice (child processes)")
 	for _, sc := range []struct{ name, sig string }{
 		{"sharedopts-exttoc", verifSigSharedExt}, {"sharedopts-zstd", verifSigSharedZstd}, {"sharedopts-esgz", verifSigSharedEsgz}} {
 		for r := 0; r < rounds; r++ {
@@ -1697,6 +1669,66 @@ func verifFindings(t *testing.T, out *verifutil.Out, rnd *verifutil.Rand, rounds
 			}
 		}
 	}
+}
+
+// verifProbeNonLayer: what the external-TOC convert functions do with a non-layer media type is not a
+// clause of C19 (the property speaks about layers); one guarded probe records the behaviour as a note.
+func verifProbeNonLayer(t *testing.T, out *verifutil.Out, rnd *verifutil.Rand) {
+	cs := verifNewStore(t)
+	blob := []byte(`{"verif":"probe"}`)
+	desc, _ := verifPut(t, cs, rnd, blob, ocispec.MediaTypeImageConfig, nil)
+	for _, tg := range []string{"exttoc", "exttoc-lossless"} {
+		c := verifNewConv(rnd, tg, nil, false)
+		r := verifConvertOne(context.Background(), c, cs, desc)
+		res := "untouched"
+		switch {
+		case r.panic != nil:
+			res = "panics"
+		case r.err != nil:
+			res = "error"
+		case r.nd != nil:
+			res = "converted"
+		}
+		out.Count(fmt.Sprintf("%s:%s:%s", verifNoteNonLayer, tg, res))
+	}
+}
+
+// verifKnown generates ONLY the inputs of the two recorded findings:
+//   - zstd-typed layers given to the gzip-producing converters (table rows + an already converted
+//     zstd:chunked layer): the blob is gzip, the media type stays zstd (verifSigZstdKept);
+//   - an eStargz layer without uncompressed label re-converted with the same options: the same blob
+//     comes out, Commit says AlreadyExists and the label is never written (verifSigLabelPreexist).
+func verifKnown(t *testing.T, out *verifutil.Out, rnd *verifutil.Rand, extra int) {
+	verifTable(t, out, rnd, extra, true)
+	cs := verifNewStore(t)
+	{
+		s := verifNewConvertedSrc(t, cs, rnd, "zstdchunked", "fz", false)
+		c := &verifConv{target: "esgz", variant: "LayerConvertFunc", fn: estargzconvert.LayerConvertFunc()}
+		r := verifConvertOne(context.Background(), c, cs, s.desc)
+		verifCheckBatch(out, rnd, cs, c, []*verifSrc{s}, []verifResult{r}, "known:zstdchunked->esgz")
+	}
+	for i := 0; i < 40; i++ {
+		s := verifNewConvertedSrc(t, cs, rnd, "esgz", fmt.Sprintf("fl%d", i), false)
+		if !s.nolabel { // drop the label a pull+unpack would have left
+			cs.Update(context.Background(), content.Info{Digest: s.desc.Digest, Labels: map[string]string{
+				labels.LabelUncompressed: ""}}, "labels."+labels.LabelUncompressed)
+			s.nolabel = true
+		}
+		c := &verifConv{target: "esgz", variant: "LayerConvertFunc", fn: estargzconvert.LayerConvertFunc()}
+		r := verifConvertOne(context.Background(), c, cs, s.desc)
+		verifCheckBatch(out, rnd, cs, c, []*verifSrc{s}, []verifResult{r}, "known:esgz->esgz(no label)")
+		if r.nd != nil && r.nd.Digest == s.desc.Digest {
+			break // the re-conversion reproduced the very blob: the class is hit
+		}
+	}
+}
+
+// TestVerifC19Known is the separate pass for the recorded findings.
+func TestVerifC19Known(t *testing.T) {
+	rnd := verifutil.NewRand(verifutil.Seed() + 7919)
+	out := verifutil.OpenOut()
+	defer out.Close()
+	verifKnown(t, out, rnd, verifutil.EnvInt("VERIF_C19_EXTRA", 4))
 }
 
 // ---------------------------------------------------------------------------------------------
@@ -1711,7 +1743,8 @@ func TestVerifC19(t *testing.T) {
 	n := verifutil.EnvInt("VERIF_N", 6)
 	// 1. the whole media-type table
 	if verifutil.EnvInt("VERIF_C19_TABLE", 1) == 1 {
-		verifTable(t, out, rnd, verifutil.EnvInt("VERIF_C19_EXTRA", 6))
+		verifTable(t, out, rnd, verifutil.EnvInt("VERIF_C19_EXTRA", 6), false)
+		verifProbeNonLayer(t, out, rnd)
 	}
 	// 2. scripted: one concurrent batch, one retry of every mode, one image per converter
 	round := 0
@@ -1749,8 +1782,8 @@ func TestVerifC19(t *testing.T) {
 			break
 		}
 	}
-	// 4. classes with their own signature
+	// 4. the shared option slice
 	if r := verifutil.EnvInt("VERIF_C19_FINDINGS", 2); r > 0 {
-		verifFindings(t, out, rnd, r)
+		verifSharedOpts(out, r)
 	}
 }
